@@ -223,6 +223,34 @@ fn arm_watchdog(prop: &'static str, replays: &str, seed: u64, tool: &str, out: O
             println!("HANG property={prop} subject={subject} replay={path}");
             std::process::exit(3);
         }
+        watchdog::Stall::AbortInCall(case) => {
+            let _ = std::fs::create_dir_all(&replays);
+            let path = format!("{replays}/{prop}-abort.json");
+            let subject = case.gs("monitor").unwrap_or("unknown").to_string();
+            let j = J::obj()
+                .set("property", prop)
+                .set("signature", format!("{prop}|returns-normally|{subject}|process-abort-in-observed-call"))
+                .set("clause", "returns-normally")
+                .set("expected", "every call into the crate returns (a value, an error, or at worst an unwind)")
+                .set("observed", "the process was aborted (SIGABRT: stack exhaustion through unbounded recursion, allocation failure or abort()) by a thread that was inside an observed call on this case")
+                .set("seed", seed)
+                .set("tool", tool.as_str())
+                .set("case", case);
+            let _ = std::fs::write(&path, j.to_pretty());
+            println!("ABORT property={prop} subject={subject} replay={path}");
+            std::process::exit(4);
+        }
+        watchdog::Stall::AbortHarness(case) => {
+            let _ = std::fs::create_dir_all(&replays);
+            let path = format!("{replays}/{prop}-harness-abort.json");
+            let _ = std::fs::write(&path, J::obj().set("property", prop).set("kind", "harness-abort").set("case", case).to_pretty());
+            println!("INCONCLUSIVE property={prop} reason=process-abort-outside-observed-call (see {path})");
+            if let Some(out) = &out {
+                let j = J::obj().set("prop", prop).set("inconclusive", "process-abort-outside-observed-call");
+                let _ = std::fs::write(out, j.to_pretty());
+            }
+            std::process::exit(2);
+        }
         watchdog::Stall::Harness(case) => {
             let _ = std::fs::create_dir_all(&replays);
             let path = format!("{replays}/{prop}-harness-stall.json");
